@@ -401,7 +401,11 @@ class Interp:
                 nz = compare("!=", b, 0)
                 if nz is False:
                     raise PyRaise("ZeroDivisionError", node=node)
-                if nz is not True and not self.ctx.branch(tb(nz)):
+                # symbolic *real* divisors: numpy floating point division never raises (it yields inf / nan); with
+                # reals for floats the quotient by zero is an unspecified real (DESIGN 2.2).  Integer division and
+                # modulo by zero raise as in Python.
+                int_div = isinstance(b, (int, SInt, SBool)) and (op != "/" or isinstance(a, (int, SInt, SBool)))
+                if nz is not True and int_div and not self.ctx.branch(tb(nz)):
                     raise PyRaise("ZeroDivisionError", node=node)
             if op == "**" and not isinstance(b, int):
                 pass
